@@ -106,6 +106,13 @@ func runC20(t *zsim.Tape, cfg *hlib.Config) *hlib.Outcome {
 	sc.InitProcs = 1 + t.Draw(4)
 	sc.MaxProcs = sc.InitProcs + t.Draw(7-sc.InitProcs)
 	sc.Timeout = 1 + t.Draw(3)
+	// one run in eight uses a pool with room for one or more FULL spawn batches (the master adds
+	// workers ten at a time) and a load that saturates it more than once
+	large := t.Draw(8) == 7
+	if large {
+		sc.MaxProcs = 11 + t.Draw(16)
+		sc.Timeout = 3
+	}
 	sc.KeepBias = []int{6, 7, 4, 2}[t.Draw(4)]
 	timeout := time.Duration(sc.Timeout) * time.Second
 
@@ -170,6 +177,9 @@ func runC20(t *zsim.Tape, cfg *hlib.Config) *hlib.Outcome {
 
 	// ---- workload
 	nClients := 1 + t.Draw(6)
+	if large {
+		nClients = 12 + t.Draw(14)
+	}
 	tok := 0
 	var reqs []*c20Req
 	for c := 0; c < nClients; c++ {
@@ -177,6 +187,14 @@ func runC20(t *zsim.Tape, cfg *hlib.Config) *hlib.Outcome {
 		for i := 0; i < n; i++ {
 			tok++
 			r := &c20Req{Token: fmt.Sprintf("T%d", tok), Client: c, Gap: time.Duration(t.Draw(9)) * 250 * time.Millisecond, Script: "instant"}
+			if large {
+				// long, back-to-back requests: every worker busy, then every worker busy again
+				r.Gap = time.Duration(t.Draw(3)) * 50 * time.Millisecond
+				r.Script, r.Service = "sleep", time.Duration(5+t.Draw(15))*100*time.Millisecond
+				reqs = append(reqs, r)
+				h.scripts[r.Token] = r
+				continue
+			}
 			switch x := t.Draw(10); {
 			case x <= 3:
 			case x <= 6:
